@@ -46,3 +46,17 @@ EDITS = [
     {"id": "rename-result", "expect": "silent",
      "edits": [{"file": R, "old": "W_mm", "new": "storage_mm", "all": True}]},
 ]
+
+_CELLS_OLD = ("    dW_mm = np.empty(zeta_grid_mm.shape, dtype=float)\n    dW_mm[0] = 0.0\n    i = 1\n    for zeta_mm in zeta_grid_mm[1:]:\n"
+              "        dW_mm[i] = specific_yield.integrate(\n            zeta_grid_mm[i - 1], zeta_grid_mm[i]\n        )\n        i += 1\n")
+EDITS += [
+    {"id": "cells-by-comprehension", "expect": "silent", "file": R, "old": _CELLS_OLD,
+     "new": "    dW_mm = np.zeros(zeta_grid_mm.shape, dtype=float)\n    dW_mm[1:] = [\n        specific_yield.integrate(lo, hi)\n"
+            "        for lo, hi in zip(zeta_grid_mm[:-1], zeta_grid_mm[1:])\n    ]\n"},
+    {"id": "cells-by-comprehension-limits-swapped", "expect": "fire", "rule": "C17.O1", "file": R, "old": _CELLS_OLD,
+     "new": "    dW_mm = np.zeros(zeta_grid_mm.shape, dtype=float)\n    dW_mm[1:] = [\n        specific_yield.integrate(hi, lo)\n"
+            "        for lo, hi in zip(zeta_grid_mm[:-1], zeta_grid_mm[1:])\n    ]\n"},
+    {"id": "cells-by-comprehension-from-second", "expect": "fire", "rule": "C17.O1", "file": R, "old": _CELLS_OLD,
+     "new": "    dW_mm = np.zeros(zeta_grid_mm.shape, dtype=float)\n    dW_mm[1:] = [\n        specific_yield.integrate(lo, hi)\n"
+            "        for lo, hi in zip(zeta_grid_mm[1:], zeta_grid_mm[2:])\n    ]\n"},
+]
